@@ -254,7 +254,19 @@ func replay(path string, alpha []Event) {
 		common.Broken("replay file names unknown config %q", f.Replay.Config)
 	}
 	fmt.Printf("replaying %d events on config %s (tree under test: %s)\n", len(f.Replay.Events), cfg.Name, common.RepoDir())
-	res := newWorker().runTrace(cfg, f.Replay.Events, probeUniverse(append(append([]Event(nil), alpha...), f.Replay.Events...)), true)
+	amb := false
+	for _, e := range f.Replay.Events {
+		amb = amb || e.Ext == "ambiguous"
+	}
+	var res Result
+	if amb {
+		fmt.Println("history contains ambiguous extension objects: the outcome may differ per run, trying up to 200 runs")
+		for i := 0; i < 200 && len(res.Problems) == 0; i++ {
+			res = newWorker().runAmbiguous(cfg, f.Replay.Events)
+		}
+	} else {
+		res = newWorker().runTrace(cfg, f.Replay.Events, probeUniverse(append(append([]Event(nil), alpha...), f.Replay.Events...)), true)
+	}
 	for i, s := range res.Steps {
 		fmt.Printf("step %d: %s\n  predicted: %s %s\n  observed:  status=%d class=%s data=%s msg=%q log=%v\n  body: %s\n  state: %s\n  model: %s\n",
 			i+1, s.Event, s.Pred.Class, nick(s.Pred.Text), s.Obs.Status, s.Obs.Class, s.Obs.Data, s.Obs.Msg, s.Obs.Log, s.Obs.Body, s.State, s.Model)
@@ -287,10 +299,10 @@ func main() {
 		}
 		alpha = trimmed
 	}
-	depth, seqLen, famDepth := 5, 3, 6
+	depth, seqLen, famDepth, ambRepeat := 5, 3, 6, 8
 	c.Budget(150 * time.Second)
 	if c.Tier == "thorough" {
-		depth, seqLen, famDepth = 8, 4, 10
+		depth, seqLen, famDepth, ambRepeat = 8, 4, 10, 24
 		c.Budget(20 * time.Minute)
 	}
 	r := &run{c: c, alpha: alpha, universe: probeUniverse(alpha), classes: map[string]int{}, sampled: map[string]bool{}}
@@ -403,13 +415,41 @@ func main() {
 		}
 		fmt.Printf("full-alphabet phase: all sequences of length<=2 over %d events, %d sequences over %d configs\n", len(alpha), pairs, len(configs))
 	}
+	// extension objects with case-variant / duplicated member names, repeated (ambiguous.go)
+	ambConfigs := []string{"mapcache", "lru2", "mapcache+qc2"}
+	ambHist, ambReq := 0, 0
+	for _, name := range ambConfigs {
+		cfg, _ := configByName(name)
+		hs := ambiguousHistories(alpha, ambRepeat)
+		results := make([]Result, len(hs))
+		var wg sync.WaitGroup
+		sem := make(chan struct{}, runtime.NumCPU())
+		for i := range hs {
+			wg.Add(1)
+			sem <- struct{}{}
+			go func(i int) {
+				defer wg.Done()
+				results[i] = newWorker().runAmbiguous(cfg, hs[i])
+				<-sem
+			}(i)
+		}
+		wg.Wait()
+		for i, res := range results {
+			r.report(cfg, hs[i], res)
+			ambHist++
+			ambReq += len(hs[i])
+		}
+	}
+	fmt.Printf("ambiguous-extension phase: %d histories (each ambiguous request repeated %d times), %d requests over %d configs\n", ambHist, ambRepeat, ambReq, len(ambConfigs))
 	fmt.Printf("all-sequences phase: %d core events, length<=%d (%d on the non-deep configs), %d sequences over %d configs, completed=%v\n",
 		len(core), seqLen, seqLen-1, seqTotal, len(configs), seqDone)
 
 	c.Cov["states"] = states
 	c.Cov["transitions"] = transitions
 	c.Cov["max_depth"] = maxDepth
-	c.Cov["traces_validated_against_impl"] = bfsTraces + seqTotal + pairs + famSeq
+	c.Cov["traces_validated_against_impl"] = bfsTraces + seqTotal + pairs + famSeq + ambHist
+	c.Cov["ambiguous_extension_histories"] = ambHist
+	c.Cov["ambiguous_extension_requests"] = ambReq
 	c.Cov["family_states"] = famStates
 	c.Cov["family_transitions"] = famTransitions
 	c.Cov["family_length2_traces"] = famSeq
@@ -441,6 +481,7 @@ func main() {
 		"near_equal_families": families,
 		"family_bfs_depth":    famDepth,
 		"family_configs":      "those with family=true (long-text families in the quick tier: those with heavy_families_in_quick; the thorough_only family only in thorough); plus all sequences of length<=2 of the family alphabet on the ones with a query cache",
+		"ambiguous_extension": fmt.Sprintf("objects with case-variant and duplicated version / sha256Hash members (10 objects x {Q1, Q2, no text} x {POST, GET}), each in 3 histories (nothing / victim / both registered first) on configs %v; within a history the request is repeated %d times, each time followed by hash-only H1 and H2 (the member a case-insensitive decoder picks may change per request: repeat count is the bound); every step judged, any one consistent reading accepted; not part of the BFS state count", ambConfigs, ambRepeat),
 		"exact_key_oracle":    "on every judged step every Get/Add gqlgen makes on the recording caches is compared byte for byte with the request: APQ key == client hash, APQ value == client text, query-cache key == text being run, stored document == parse(text)",
 		"configs":             configs,
 		"state_key":           "APQ cache entries (+LRU recency order) + query-document cache keys (+order)",
